@@ -20,7 +20,7 @@ def fill_forward_gaps(
     if eval_resolution is None:
         eval_resolution = triangle.eval_date_resolution
     filled_cells = []
-    for _, period in triangle.period_rows:
+    for _, period in triangle.slice_period_rows:
         period_cells = {cell.dev_lag(): cell for cell in period}
         required_lags = {
             lag
